@@ -72,4 +72,7 @@ CHECKS = {
     "C17": dict(engine=_C, technique="runtime monitoring: DFS-forest validity oracle (harness graph algorithms) on pseudo-trees built for generated constraint graphs up to thousands of variables",
                 text="Held on the executions observed: one node per variable, mutually consistent parent/children and pseudo links, acyclic parents with one root per component, every constraint-sharing pair ancestor/descendant and directly linked by a tree or back edge, pseudo links only along ancestor lines, node.constraints == constraints on its variable, no exception up to 1500 (quick) / 4000 (thorough) variables.",
                 note="Only structure matters (zero-valued function relations); chains, stars, grids, caterpillars for the large sizes."),
+    "C15": dict(engine=_C, technique="runtime monitoring: wire round trip (simple_repr/json/from_repr) of messages harvested from real algorithm and infrastructure runs, harness-side deep comparison, differential by-reference vs through-the-wire runs, pickle round trip of AgentDef",
+                text="Held on the executions observed: every harvested algorithm message, every orchestration/discovery/replication message, and the ComputationDefs of all four graph models decode into objects with the same fields, links, neighbours and relation values (harness deep comparison); running each algorithm with all messages pushed through the wire ends on the same assignment as by reference; unpickled AgentDefs keep name, extra attributes, hosting costs, routes.",
+                note="Wire = what HttpCommunicationLayer/MPCHttpHandler do; generated orchestration contents use only shapes the runtime produces (string-keyed dicts)."),
 }
